@@ -479,6 +479,12 @@ class UpdaterModel:
                         for k, nm in self.dispatch.debug_names.items():
                             if nm == x[1] and 1 <= k <= self.dispatch.argc:
                                 upd_ty = self.dispatch.tystr(self.dispatch.locals[k]['ty']).lstrip('&').replace('mut ', '').strip().split('<')[0]
+        if upd_ty in ('Self',) + tuple(self.dispatch.generics or ()) and self.dispatch.provided_of:
+            # the loop is a method a private trait provides: `self` is the trait's only implementor
+            impls_ = {b.impl_self.split('<')[0] for b in fb.bodies(common.DAEMON)
+                      if b.impl_trait and b.impl_trait.split('<')[0] == self.dispatch.provided_of.split('<')[0] and b.impl_self}
+            if len(impls_) == 1:
+                upd_ty = impls_.pop()
         ctor = None
         # (the loop may be a method of a per-thread struct that *holds* the updater: the type some function constructs is
         # then the type of a field on the way to the published fields -- `self.updater.bound` -- and every name gets the prefix)
